@@ -12,6 +12,7 @@
   plate labels on the rows of sample `σ`.
 -/
 import Batchie.Lemmas.PrepOps
+import Batchie.Lemmas.PrepExamples
 
 namespace Batchie.Props.C13
 open Batchie.Proto Batchie.Screen Batchie.Prep
@@ -137,6 +138,18 @@ theorem C13_min_plates_per_sample (c : Name) (a : Nat) (rows : List Row) (u nu :
     ∀ x ∈ rowsOf nu, minN ≤ ((distinctPlates (rowsOf nu) x.sample).length : Int) :=
   ⟨nPlate_spec hu h, nPlate_min hu h⟩
 
+/-- regression (DESIGN section 7 #11): the smoother as it was before the fix -- dropping one sample at a time through
+    `to_screen()`, which renumbers the sample ids it is still iterating over -- on samples `s1`, `s2` (one plate each) and
+    `s3` (two plates) with minimum 2 keeps `s2` with its single plate and loses `s3`: the post-condition fails ... -/
+theorem C13_nplate_old_violates :
+    sampleAndPlateCols (build [] 2 wRows >>= fun u => nPlateOld 2 u) = some ([[115, 50]], [[112, 50]]) :=
+  nplate_old_violates
+
+/-- ... while the current smoother keeps exactly `s3` with its two plates -/
+theorem C13_nplate_new_keeps :
+    sampleAndPlateCols (build [] 2 wRows >>= fun u => nPlate 2 u) = some ([[115, 51], [115, 51]], [[112, 51], [112, 52]]) :=
+  nplate_new_keeps
+
 theorem C13_min_plates_per_sample_ensemble (c : Name) (a : Nat) (rows : List Row) (u nu : Screen)
     (minSize nIter minN : Int) (pops : List Nat) (choices : List (List Nat))
     (hu : build c a rows = .ok u) (hm : ∀ x ∈ rows, x.mask = false)
@@ -176,5 +189,18 @@ theorem C13_topbottom_halves (c : Name) (a : Nat) (rows : List Row) (u nu : Scre
     (hu : build c a rows = .ok u) (h : mergeTopBottom n u = .ok nu) (σ : Name) (hσ : σ ∈ rows.map (·.sample)) :
     (distinctPlates (rowsOf nu) σ).length = halve^[n.toNat] (distinctPlates rows σ).length :=
   mergeTopBottom_halves_rows hu h σ hσ
+
+/-! ### the hypotheses are satisfiable (concrete screens of `Lemmas/PrepExamples.lean`, evaluated by `decide`) -/
+
+example : ∃ u nu, build [] 2 exU = .ok u ∧ genSegregating 2 [[0,3,2],[5,1,4]] u = .ok nu := ex_inner_segregating
+example : ∃ u nu, build [] 2 exU = .ok u ∧ genPairwise 1 0 [] [[2,0,4,1,3]] [[genName 3]] u = .ok nu := ex_inner_pairwise
+example : ∃ u nu, build [] 2 exU = .ok u ∧ fixedSize 2 [[1,4]] u = .ok nu := ex_inner_fixedSize
+example : ∃ u nu, build [] 2 exU = .ok u ∧ optimalSizeSmoother [[4,5]] u = .ok nu := ex_inner_optimalSize
+example : ∃ u nu, build [] 2 exU = .ok u ∧ nPlate 2 u = .ok nu := ex_inner_nPlate
+example : ∃ u nu, build [] 2 exU = .ok u ∧ mergeMin 3 [3,0] u = .ok nu := ex_inner_mergeMin
+example : ∃ u nu, build [] 2 exOne = .ok u ∧ mergeTopBottom 2 u = .ok nu := ex_inner_mergeTopBottom
+example : ∃ s out, mk? (rawOfRows [] 2 exFull none none) = .ok s ∧ sparseCover true [0, 1, 3, 5] s = .ok out := ex_sparse_cover
+example : ∃ s out, mk? exRaw = .ok s ∧ comboFilter s = .ok out := ex_combo_filter
+example : ∃ s out, mk? exRaw = .ok s ∧ (Smoother.ensemble 3 1 1 [3,0] []).wrapped s = .ok out := ex_wrapped_ensemble
 
 end Batchie.Props.C13
